@@ -138,7 +138,7 @@ def gen_history(rng):
         eq = {'kind': 'equal', 'pick': [0.9] * 6, 'delta': [1] * 6, 'unknown': None}
         evs += [('restart',) if rng.random() < 0.5 else ('restart', 'at-once'), ('recv', eq), ('idle', 400), ('pub',), ('recv', gen_vector_spec(rng, nodes)), ('advance', 'past')]
     return {'nodes': nn, 'events': evs, 'last_used': rng.choice([0, 0, 0, 3, 3, 254, 65535, 2**32 - 2, 2**32 - 1, 2**32, 2**40 + 1]), 'publish_in_callback': rng.random() < 0.25,
-            'pre_start_pubs': rng.choice([0, 0, 0, 1, 2]), 'bystander': rng.random() < 0.3}
+            'pre_start_pubs': rng.choice([0, 0, 0, 1, 2]), 'bystander': rng.random() < 0.3, 'start_again': rng.random() < 0.3}
 
 
 def gen_vector_spec(rng, nodes):
@@ -629,6 +629,16 @@ def execute(ctx, hist, rng):
                 R['pattern'].append('f')
             elif ev[0] == 'pub':
                 t0 = S.now_ms()
+                if hist.get('start_again') and ei % 2 == 0:
+                    # the application calls start() on the running instance once more: refused (documented RuntimeError) - and a refused
+                    # call changes nothing
+                    try:
+                        inst.start(the_app)
+                        R['viol'].append(('second-start-not-refused', 'start() on a running instance did not raise', w))
+                    except RuntimeError:
+                        ctx.event('second-start-refused')
+                    except Exception as e:   # noqa
+                        R['viol'].append((f'second-start-raises:{type(e).__name__}', f'{e!r}', w))
                 seq = inst.new_data()
                 self_seq += 1
                 model_local[nid(SELF)] = self_seq
@@ -717,10 +727,53 @@ def execute(ctx, hist, rng):
     return R, S
 
 
+def check_second_loop(ctx, rng):
+    """One application and one sync instance live through two sessions, each under its OWN event loop (asyncio.run() per session):
+    connect, start, publish, stop, disconnect.  In the second session a publication is announced promptly like in the first."""
+    for rep in range(ctx.n(3, 40)):
+        face = RecFace()
+        the_app = appv2.NDNApp(face=face)
+
+        async def pv(n, s_, c):
+            return types.ValidResult.PASS
+        inst = SvsInst(BASE_PREFIX, SELF, lambda i: None, DigestSha256Signer(for_interest=True), pv, sync_interval=30, suppression_interval=0.2)
+        for session in (1, 2, 3):
+            res = {}
+
+            async def main(S):
+                main_task = asyncio.ensure_future(the_app.main_loop())
+                await asyncio.sleep(0.001)
+                inst.start(the_app)
+                await asyncio.sleep(0.4)
+                n0 = len(face.sent)
+                seq = inst.new_data()
+                await asyncio.sleep(0.05)
+                res['emitted'] = len(face.sent) - n0
+                res['seq'] = seq
+                inst.stop()
+                await asyncio.sleep(0)
+                the_app.shutdown()
+                await asyncio.wait_for(main_task, 5)
+            S = vtime.run(main)
+            ctx.case(('second-loop', session, rep % 2), nontrivial=True)
+            ctx.event(f'sync-session-{session}-under-its-own-event-loop')
+            w = {'session': session}
+            if S.result != 'ok':
+                ctx.report(f'second-loop-scenario-{S.result}', f'{S.error!r}', w)
+                break
+            if res.get('emitted', 0) < 1:
+                ctx.report('publish-not-announced-promptly:session-under-another-event-loop', f'in session {session} of one instance (each session under its own event loop) a publication was not announced within 50 ms (virtual)', w)
+            for le in S.sentinel.all():
+                ctx.report('second-loop-background-error', f'session {session}: {le.get("repr")}', w)
+
+
 def run(ctx):
     ctx.rule = RULE
     rng = ctx.rng
     orig = svs_sync.secrets.randbits
+    if ctx.shard == 0:
+        check_second_loop(ctx, rng)
+        ctx.need_event('sync-session-2-under-its-own-event-loop')
     try:
         templates = template_histories(rng) if ctx.shard == 0 else []
         for i in range(ctx.n(700, 300000) + len(templates)):
@@ -741,7 +794,7 @@ def run(ctx):
               'publication-next-to-reception', 'publication-before-start', 'instance-restarted', 'vector-with-unknown-elements-between-entries',
               'vector-for-a-second-group-on-the-same-application', 'second-group-stopped-first-goes-on', 'instance-restarted-without-yielding',
               'publication-whose-announcement-failed-in-the-transport',
-              'wall-clock-stepped-while-a-timer-is-armed', 'vector-with-its-validator-when-the-instance-is-stopped'):
+              'second-start-refused', 'wall-clock-stepped-while-a-timer-is-armed', 'vector-with-its-validator-when-the-instance-is-stopped'):
         ctx.need_event(k)
     ctx.assumptions = ['when suppression is entered is read from the instance (not part of the statement)',
                        'a vector containing a malformed entry may be merged without that entry or ignored entirely',
